@@ -89,12 +89,17 @@ func concBody(c conc) func() string {
 				vrt.Fail("fixture: %v", err)
 			}
 		}
-		reg("m", hn.NewNode(log, "m", el.NodeTypeFormatter, hn.Pass, nil))
+		// every version has its own formatter and sink objects; nodes contain a
+		// scheduling point (a node takes time), so an overwrite can land while a
+		// Send is inside a node of the old version
 		for v := 1; v <= 3; v++ {
+			m := hn.NewNode(log, fmt.Sprintf("m%d", v), el.NodeTypeFormatter, hn.Pass, nil)
+			m.Yield = c.Senders == 1
+			reg(fmt.Sprintf("m%d", v), m)
 			reg(fmt.Sprintf("s%d", v), hn.NewNode(log, fmt.Sprintf("s%d", v), el.NodeTypeSink, hn.Drop, nil))
 		}
 		pipe := func(v int) error {
-			return b.RegisterPipeline(el.Pipeline{PipelineID: "p1", EventType: "t1", NodeIDs: []el.NodeID{"m", el.NodeID(fmt.Sprintf("s%d", v))}})
+			return b.RegisterPipeline(el.Pipeline{PipelineID: "p1", EventType: "t1", NodeIDs: []el.NodeID{el.NodeID(fmt.Sprintf("m%d", v)), el.NodeID(fmt.Sprintf("s%d", v))}})
 		}
 		if err := pipe(1); err != nil {
 			vrt.Fail("fixture: %v", err)
@@ -128,10 +133,17 @@ func concBody(c conc) func() string {
 		var sig []string
 		for i := 0; i < c.Senders; i++ {
 			var markers []string
+			var fmts []string
 			for _, inv := range log.Invs() {
 				if inv.InPay == any(payloads[i]) && strings.HasPrefix(inv.Node, "s") {
 					markers = append(markers, inv.Node)
 				}
+				if inv.InPay == any(payloads[i]) && strings.HasPrefix(inv.Node, "m") {
+					fmts = append(fmts, inv.Node)
+				}
+			}
+			if len(markers) == 1 && (len(fmts) != 1 || fmts[0][1:] != markers[0][1:]) {
+				vrt.Fail("Send %d was processed by formatter(s) %v and sink %v: a mix of two versions of pipeline t1/p1 (overwrites: %v)", i, fmts, markers, ow)
 			}
 			if len(markers) != 1 {
 				vrt.Fail("Send %d [%d,%d] was processed by versions %v of pipeline t1/p1: exactly one expected (overwrites: %v)", i, sends[i].call, sends[i].ret, markers, ow)
